@@ -8,3 +8,5 @@ import Spade.Properties.C17
 #print axioms Spade.C17_orient_affine
 #print axioms Spade.C17_param_in_unit
 #print axioms Spade.C17_direction_unique
+#print axioms Spade.C17_model_trace_vertex_sound
+#print axioms Spade.C17_model_trace_edge_sound
